@@ -737,4 +737,123 @@ theorem count_unquoteToks (U : List UInt8) (d : Char) (hd : d.toNat < 0x80) (hsp
             intro h; exact hge (UInt8.lt_iff_toNat_lt.2 (by simpa using h))
           omega
 
+/-! ### raw non-printable characters are escaped first (`escapeRaw`) -/
+
+theorem uSpaces_high : ∀ n ∈ uSpaces, 0x80 ≤ n := by decide
+
+theorem staysEscaped_high {c : Char} (h : staysEscaped c = true) : 0x80 ≤ c.toNat := by
+  simp only [staysEscaped, Bool.or_eq_true] at h
+  rcases h with h | h
+  · simp only [isC1, Bool.and_eq_true, decide_eq_true_eq] at h; exact h.1
+  · exact uSpaces_high _ (by simpa using h)
+
+theorem staysEscaped_of_lt {c : Char} (h : c.toNat < 0x80) : staysEscaped c = false := by
+  cases hs : staysEscaped c with
+  | false => rfl
+  | true => have := staysEscaped_high hs; omega
+
+theorem escTok_raw {c : Char} (h : staysEscaped c = false) : escTok (.raw c) = [.raw c] := by
+  simp [escTok, h]
+
+theorem escapeRaw_append (a b : List Tok) : escapeRaw (a ++ b) = escapeRaw a ++ escapeRaw b := by
+  simp [escapeRaw]
+
+theorem escapeRaw_cons (t : Tok) (r : List Tok) : escapeRaw (t :: r) = escTok t ++ escapeRaw r := by
+  simp [escapeRaw]
+
+theorem wf_escTok {t : Tok} (h : WfTok t) : ∀ t' ∈ escTok t, WfTok t' := by
+  intro t' ht'
+  cases t with
+  | raw c =>
+    simp only [escTok] at ht'
+    split at ht'
+    · simp only [List.mem_map] at ht'
+      obtain ⟨b, _, rfl⟩ := ht'
+      exact canon_escOfByte b
+    · simp only [List.mem_singleton] at ht'; subst ht'; exact h
+  | esc h1 h2 => simp only [escTok, List.mem_singleton] at ht'; subst ht'; exact h
+  | stray => simp only [escTok, List.mem_singleton] at ht'; subst ht'; exact h
+
+theorem wf_escapeRaw {ts : List Tok} (h : ∀ t ∈ ts, WfTok t) : ∀ t ∈ escapeRaw ts, WfTok t := by
+  intro t ht
+  simp only [escapeRaw, List.mem_flatMap] at ht
+  obtain ⟨t0, ht0, ht⟩ := ht
+  exact wf_escTok (h t0 ht0) t ht
+
+theorem pct_escTok (t : Tok) : pct (escTok t) = pctTok t := by
+  cases t with
+  | raw c =>
+    simp only [escTok]
+    split
+    · simp [pct_map_escOfByte, pctTok]
+    · simp [pct]
+  | esc h1 h2 => simp [escTok, pct]
+  | stray => simp [escTok, pct]
+
+theorem pct_escapeRaw (ts : List Tok) : pct (escapeRaw ts) = pct ts := by
+  induction ts with
+  | nil => rfl
+  | cons t r ih =>
+    rw [escapeRaw_cons, pct_append, ih, pct_escTok]
+    simp [pct]
+
+/-- a raw character that survives `escapeRaw` is a raw character of the input that
+`NON_PRINTABLE_RE` does not match -/
+theorem raw_mem_escapeRaw {ts : List Tok} {c : Char} (h : Tok.raw c ∈ escapeRaw ts) :
+    Tok.raw c ∈ ts ∧ staysEscaped c = false := by
+  simp only [escapeRaw, List.mem_flatMap] at h
+  obtain ⟨t0, ht0, ht⟩ := h
+  cases t0 with
+  | raw c0 =>
+    simp only [escTok] at ht
+    split at ht
+    · simp only [List.mem_map] at ht
+      obtain ⟨b, _, hb⟩ := ht
+      simp [escOfByte] at hb
+    · rename_i hs
+      simp only [List.mem_singleton, Tok.raw.injEq] at ht
+      subst ht
+      exact ⟨ht0, by simpa using hs⟩
+  | esc h1 h2 => simp [escTok] at ht
+  | stray => simp [escTok] at ht
+
+theorem escapeRaw_fixed {ts : List Tok} (h : ∀ c, Tok.raw c ∈ ts → staysEscaped c = false) :
+    escapeRaw ts = ts := by
+  induction ts with
+  | nil => rfl
+  | cons t r ih =>
+    rw [escapeRaw_cons, ih (fun c hc => h c (by simp [hc]))]
+    cases t with
+    | raw c => rw [escTok_raw (h c (by simp))]; rfl
+    | esc h1 h2 => rfl
+    | stray => rfl
+
+/-- ASCII raw characters are neither created nor removed by `escapeRaw` -/
+theorem count_escapeRaw (d : Char) (hd : d.toNat < 0x80) (ts : List Tok) :
+    (escapeRaw ts).count (.raw d) = ts.count (.raw d) := by
+  induction ts with
+  | nil => rfl
+  | cons t r ih =>
+    rw [escapeRaw_cons, List.count_append, ih, List.count_cons]
+    have : (escTok t).count (.raw d) = if t == Tok.raw d then 1 else 0 := by
+      cases t with
+      | raw c =>
+        simp only [escTok]
+        split
+        · rename_i hs
+          have hne : c ≠ d := by
+            rintro rfl
+            have := staysEscaped_high hs; omega
+          have h0 : ((utf8 c).map escOfByte).count (Tok.raw d) = 0 := by
+            rw [List.count_eq_zero]
+            intro hm
+            simp only [List.mem_map] at hm
+            obtain ⟨b, _, hb⟩ := hm
+            simp [escOfByte] at hb
+          simp [h0, hne]
+        · simp [List.count_cons]
+      | esc h1 h2 => simp [escTok, List.count_cons]
+      | stray => simp [escTok, List.count_cons]
+    rw [this]; omega
+
 end Ural.Quote
